@@ -456,7 +456,7 @@ int xmp_set_player__(xmp_context opaque, int parm, int val)
 		}
 		break;
 	case XMP_PLAYER_VOICES:
-		if (val >= 0) {
+		if (val >= 0 && val <= 0x10000) {
 			s->numvoc = val;
 			ret = 0;
 		}
